@@ -33,6 +33,10 @@ from .types import NetworkError, InterestTimeout, Validator, Route, InterestCanc
 from .client_conf import read_client_conf, default_face, default_keychain
 
 
+# How long a management command waits for the system clock to move on since the previous command
+_MAX_TIMESTAMP_WAIT_MS = 1000
+
+
 class NDNApp:
     """
     An NDN application.
@@ -487,7 +491,8 @@ class NDNApp:
     async def _wait_for_new_command_timestamp(self):
         # NFD only allows one command signed by a specific key for a timestamp number (milliseconds):
         # wait until the clock has moved on since the previous command, as NfdRegister does.
-        for _ in range(10):
+        # (A system clock may tick every 16 ms or slower: giving up after 10 ms sent two commands with one timestamp)
+        for _ in range(_MAX_TIMESTAMP_WAIT_MS):
             now = timestamp()
             if now > self._last_command_timestamp:
                 self._last_command_timestamp = now
